@@ -184,7 +184,7 @@ class Ctx:
         cmd = ["go", "build", "-tags", "verif", "-o", exe]
         if os.environ.get("VERIF_COVERDIR"):
             # coverage survey (not part of any verdict): which statements of the package do the suites execute
-            cmd[2:2] = ["-cover", "-coverpkg=github.com/influxdata/influxql"]
+            cmd[2:2] = ["-cover", "-coverpkg=github.com/influxdata/influxql,verifharness"]
         env = go_env()
         if race:
             cmd.insert(2, "-race")
